@@ -81,7 +81,8 @@ impl Out {
   pub fn stat_n(&mut self, key: &str, n: u64) { *self.stats.entry(key.to_string()).or_insert(0) += n; }
   pub fn violation(&mut self, kind: &str, input: String, expected: String, observed: String) {
     if self.violations.len() < 200 {
-      self.violations.push(Violation { kind: kind.to_string(), input, expected, observed });
+      let cut = |s: String| if s.len() > 1500 { let mut e = 1500; while !s.is_char_boundary(e) { e -= 1; } format!("{}…(truncated, {} bytes)", &s[..e], s.len()) } else { s };
+      self.violations.push(Violation { kind: kind.to_string(), input: cut(input), expected: cut(expected), observed: cut(observed) });
     }
     self.stat(&format!("violation:{}", kind));
   }
